@@ -176,6 +176,10 @@ func (b *builder) base(o baseOpt) {
 			if r.Intn(10) == 0 {
 				d.Name = ""
 			}
+			if r.Intn(3) == 0 {
+				// door names are labels: how many there are changes nothing about what a call does
+				d.Doors = pick(r, nil, []string{"only"}, []string{"front", "back"}, []string{"a", "b", "c"}, []string{"1", "2", "3", "4", "5"}, []string{"1", "2", "3", "4", "5", "6", "7", "8"})
+			}
 			c.Devices = append(c.Devices, d)
 			if o.badDevAddrs && r.Intn(8) == 0 {
 				// the same controller listed twice: the later entry is the one that counts
